@@ -176,6 +176,10 @@ impl<T: Copy + Clone + Number + Signed + std::fmt::Debug> Polynomial<T> {
             t.coeffs[ r.degree()? - v.degree()? ] = r.coeffs[ r.degree()? ] / v.coeffs[ v.degree()? ];
             q = q + t.clone();
             r = r - ( t * v.clone() );
+            // The leading term is eliminated by construction; in floating point the
+            // subtraction can leave a rounding residue there, which stalled the loop.
+            let lead = r.coeffs.len() - 1;
+            r.coeffs[ lead ] = T::zero();
             r.trim();
             q.trim();
             count += 1;
